@@ -66,6 +66,7 @@ fn replay(prop: &str, case: &Value, rep: &mut Report) {
         ("c06", _) => {
             let mut maps = c06::Maps::default();
             c06::check(&pos_of(case), rep, &mut rng, &mut maps);
+            if let Ok(mut bb) = adapter::load(&pos_of(case)) { c06::node_round_trip(&pos_of(case), &mut bb, rep); }
         }
         ("c12", _) => c12::check_string(case["string"].as_str().unwrap_or(""), rep, "replay"),
         ("c13", "c13") => {
@@ -238,6 +239,7 @@ fn main() {
                         }
                     }
                     running = Some(next.unwrap_or((fen, h, ph)));
+                    c06::node_round_trip(p, bb, rep);
                 } else {
                     running = None;
                 }
